@@ -82,22 +82,27 @@ func runC04(c *Ctx) {
 			}
 		}
 		nRet := 0
-		for _, pt := range f.Find(func(n ast.Node) bool { _, ok := n.(*ast.ReturnStmt); return ok }) {
-			rs := f.nodeAt(pt).(*ast.ReturnStmt)
-			if !f.Reachable(pt) {
+		// what the operation returns: every place its error result can come from (a return of its
+		// own, or - when it runs through a gate helper - the return sites of that helper and of the
+		// literal handed to it), judged where the value is produced
+		for _, rpt := range f.FindOwn(func(n ast.Node) bool { _, ok := n.(*ast.ReturnStmt); return ok }) {
+			rs := f.nodeAt(rpt).(*ast.ReturnStmt)
+			if !f.Reachable(rpt) || len(rs.Results) == 0 {
 				continue
 			}
-			nRet++
-			last := rs.Results[len(rs.Results)-1]
-			if _, onlyTrue := f.OnlyThroughEdges(pt, trueE); onlyTrue {
-				if exprKey(last) != "kvstore.ErrStoreClosed" {
-					bad = "the closed branch at " + f.PosOf(pt) + " does not return kvstore.ErrStoreClosed"
+			for _, o := range f.Origins(rs.Results[len(rs.Results)-1], rpt) {
+				pt, last := o.At, o.E
+				nRet++
+				if _, onlyTrue := f.OnlyThroughEdges(pt, trueE); onlyTrue {
+					if exprKey(last) != "kvstore.ErrStoreClosed" {
+						bad = "the closed branch at " + f.PosOf(pt) + " does not return kvstore.ErrStoreClosed"
+					}
+					continue
 				}
-				continue
-			}
-			if w, ok := f.OnlyThroughEdges(pt, falseE); !ok {
-				bad = "a return at " + f.PosOf(pt) + " is reachable without testing the closed flag"
-				wit = w
+				if w, ok := f.OnlyThroughEdges(pt, falseE); !ok {
+					bad = "a return at " + f.PosOf(pt) + " is reachable without testing the closed flag"
+					wit = w
+				}
 			}
 		}
 		if bad != "" {
@@ -1044,6 +1049,9 @@ func visitorsCopy(p *Prog, info *types.Info, pkg string, fd *ast.FuncDecl, param
 				return true
 			}
 			n++
+			if isNil(info, c.Args[paramIdx]) {
+				return true // no visitor at this call: nothing is handed out
+			}
 			lit, isLit := ast.Unparen(c.Args[paramIdx]).(*ast.FuncLit)
 			if !isLit {
 				msg = p.posStr(c.Pos()) + ": the visitor handed to " + fd.Name.Name + " is not a function literal: cannot establish that the stored []byte it receives is copied"
